@@ -112,7 +112,27 @@ fn check<S: Shape>(ctx: &mut Ctx, shape: S, st: StyleD) {
         ctx.violation(format!("{}|exceeds-step-budget", kind), case, || format!("more than {} items", budget));
         return;
     }
-    for (path, map) in [("draw()/draw_iter-only", &a.log.map), ("draw()/native", &b.log.map), ("pixels()", &c.log.map)] {
+    // the same shape and style assembled by assigning the public fields of a `Styled` that was made
+    // from another primitive style (all fields of `Styled` and `PrimitiveStyle` are public; a value
+    // derived at construction time would be stale here - see seeded `C15-17` for the text analogue)
+    let mut fa = IterTarget::<C>::new(unbounded_box());
+    fa.log.budget = budget as u64;
+    {
+        let mut ps = PrimitiveStyle::<C>::with_stroke(C::nth(6), st.width.wrapping_add(3));
+        let mut s2 = Styled::new(shape, ps);
+        ps.fill_color = style.fill_color;
+        ps.stroke_color = style.stroke_color;
+        ps.stroke_width = style.stroke_width;
+        ps.stroke_alignment = style.stroke_alignment;
+        ps.stroke_style = style.stroke_style;
+        s2.style = ps;
+        s2.primitive = shape;
+        let _ = S::render(&s2, &mut fa);
+        if s2.fill_area().bounding_box() != fill_area.bounding_box() || s2.stroke_area().bounding_box() != stroke_area.bounding_box() || S::styled_bb(&s2) != S::styled_bb(&styled) {
+            ctx.violation(format!("{}|field-assigned-style|areas-differ", kind), case, || "fill_area(), stroke_area() or bounding_box() of a Styled whose public fields were assigned differ from those of the constructed one".to_string());
+        }
+    }
+    for (path, map) in [("draw()/draw_iter-only", &a.log.map), ("draw()/native", &b.log.map), ("pixels()", &c.log.map), ("draw()/field-assigned-style", &fa.log.map)] {
         if !map.same(&want) {
             // classify: what is wrong relative to the areas
             let (mut miss_fill, mut miss_stroke, mut extra, mut wrong) = (0, 0, 0, 0);
